@@ -102,6 +102,15 @@ impl MemTable {
 		Ok(skiplist::fits_empty_arena(arena_capacity.min(arena::MAX_ARENA_SIZE), sizes))
 	}
 
+	/// Arena capacity with which an empty memtable is certain to take `batch` (the space a node
+	/// needs depends on the height drawn for its tower).
+	pub(crate) fn arena_size_for(batch: &Batch) -> Result<usize> {
+		let sizes = batch
+			.entries_with_seq_nums()?
+			.map(|(_, entry, _, _)| (entry.key.len(), entry.value.as_ref().map_or(0, |v| v.len())));
+		Ok(skiplist::arena_size_for(sizes).min(arena::MAX_ARENA_SIZE as u64) as usize)
+	}
+
 	/// Sets the WAL number associated with this memtable.
 	/// This should be called when the memtable starts receiving writes
 	/// to track which WAL contains its data.
